@@ -17,6 +17,7 @@ from oslo_utils import encodeutils
 from oslo_utils import timeutils
 import webob
 
+from placement import db_api
 from placement import errors
 from placement import exception
 from placement import microversion
@@ -92,9 +93,12 @@ def get_aggregates(req):
     context = req.environ['placement.context']
     context.can(policies.LIST)
     uuid = util.wsgi_path_item(req.environ, 'uuid')
-    resource_provider = rp_obj.ResourceProvider.get_by_uuid(
-        context, uuid)
-    aggregate_uuids = resource_provider.get_aggregates()
+    # Both are read in one transaction, so that the generation belongs to
+    # the aggregates reported with it.
+    with db_api.placement_context_manager.reader.using(context):
+        resource_provider = rp_obj.ResourceProvider.get_by_uuid(
+            context, uuid)
+        aggregate_uuids = resource_provider.get_aggregates()
 
     return _send_aggregates(req, resource_provider, aggregate_uuids)
 
